@@ -3,7 +3,7 @@ import z3
 
 from pyvc.contracts import contract
 from pyvc.types import SV, And, Exists, ForAll, Implies, Ite, Not, Or, TBool, TInt, TOpt, TStr, lift
-from specs.heap import HashFileDB, o2p
+from specs.heap import HashFileDB, O, o2p
 from specs.records import Meta
 
 M = "dvc_data.hashfile.checkout"
@@ -12,9 +12,9 @@ contract(
     "ext:dvc_objects.db.ObjectDB.oid_to_path",
     params=dict(self=HashFileDB, oid=TStr),
     returns=TStr,
-    ensures=lambda c: c.result == o2p(c.h.get("HashFileDB.path", c.self), c.oid),
+    ensures=lambda c: And(c.result == o2p(c.h.get("HashFileDB.path", c.self), c.oid), c.result == O(c.h.get("HashFileDB.path", c.self), c.oid)),
     assumed=True,
-    doc="ObjectDB.oid_to_path = fs.join(path, oid[:2], oid[2:])",
+    doc="ObjectDB.oid_to_path = fs.join(path, oid[:2], oid[2:]) (named O(path, oid) in specifications)",
 )
 
 
@@ -25,7 +25,7 @@ def already_linked_as(c, t):
     is_copy = And(Not(m.is_link), m.nlink == 1)
     is_hard = And(Not(m.is_link), m.nlink > 1, cm.is_some, m.inode == cm.val.inode)
     is_sym = And(m.is_link, m.destination.is_some, c.oid.is_some,
-                 m.destination.val == o2p(c.h.get("HashFileDB.path", c.cache), c.oid.val))
+                 m.destination.val == O(c.h.get("HashFileDB.path", c.cache), c.oid.val))
     return Or(And(Or(t == "copy", t == "reflink"), is_copy), And(t == "hardlink", is_hard), And(t == "symlink", is_sym))
 
 
